@@ -362,10 +362,10 @@ class World:
         # the raw reader reports every directory of the root; only names of exactly the form YYYY.MM.DD are backup groups, any other directory
         # is a foreign entry of the root (an "unexpected directory" to the listing), however much its name resembles a group's
         if "groups" in dec:
-            foreign = [g for g in dec["groups"] if not re.fullmatch(r"\d{4}\.\d{2}\.\d{2}", g["name"])]
+            foreign = [g for g in dec["groups"] if not re.fullmatch(r"[0-9]{4}\.[0-9]{2}\.[0-9]{2}", g["name"])]
             if foreign:
                 dec["groups"] = [g for g in dec["groups"] if g not in foreign]
-                dec["junk"] = sorted(dec.get("junk", []) + [{"name": g["name"], "dir": True} for g in foreign], key=lambda j: j["name"])
+                dec["junk"] = sorted(dec.get("junk", []) + [{"name": g["name"], "dir": True, "children": sorted(e["name"] for e in g["entries"])} for g in foreign], key=lambda j: j["name"])
         return dec
 
 
@@ -695,6 +695,11 @@ class History:
         lost = [j for j in listing(before)[1] if j not in listing(after)[1]]
         if lost:
             self.violation("C07", "entries of the storage root that are not backup groups were deleted by the run: %s" % lost)
+        kids_before = {j["name"]: j.get("children") for j in before.get("junk", []) if j.get("dir")}
+        for j in after.get("junk", []):
+            if j.get("dir") and j["name"] in kids_before and kids_before[j["name"]] is not None and j.get("children") != kids_before[j["name"]]:
+                self.violation("C07", "the run changed the contents of %r, a directory of the storage root that is not a backup group (a group is named exactly "
+                               "YYYY.MM.DD in ASCII digits): %s -> %s" % (j["name"], kids_before[j["name"]], j.get("children")))
         # ---- per published backup: manifest / archive / C02 / C09 / C10 ----
         if published:
             tg = [g for g in after["groups"] if any(e["name"] == name for e in g["entries"])][0]
@@ -888,6 +893,9 @@ class History:
             # a foreign directory whose name merely STARTS like a group name (a copy kept by hand, an editor's or sync tool's leftover);
             # empty or holding only a dot-file, older than everything else
             d = time.strftime("%Y.%m.%d", time.gmtime(self.now - rng.randrange(400, 900) * 86400)) + rng.choice([".old", "-copy", ".bak", "x", " (1)"])
+            if rng.random() < 0.3:
+                # ... or is a date written in decimal digits that are not ASCII: it sorts after every real group name
+                d = rng.choice(["\u0662\u0660\u0662\u0660.\u0660\u0661.\u0660\u0662", "\uff12\uff10\uff12\uff10.01.02"])
             if not os.path.exists(os.path.join(w.st, d)):
                 os.mkdir(os.path.join(w.st, d), 0o700)
                 if rng.random() < 0.5:
